@@ -288,11 +288,17 @@ impl<Octs: Octets> CommonHeader<Octs> {
     fn check<Ref: Octets>(parser: &mut Parser<Ref>)
         -> Result<(), ParseError>
     {
+        let total = parser.remaining();
         let version = parser.parse_u8()?;
         if version != 3 {
             return Err(ParseError::form_error("BMP version != 3"));
         }
-        parser.advance(4)?; // u32 message length
+        // The accessors and iterators rely on the length field describing
+        // the octets they work on.
+        let len = parser.parse_u32_be()?;
+        if usize::try_from(len).ok() != Some(total) {
+            return Err(ParseError::form_error("invalid BMP message length"));
+        }
         let typ = parser.parse_u8()?;
         if typ > 6 {
             return Err(ParseError::form_error("BMP message type unknown"));
